@@ -10,6 +10,7 @@ CONSTANTS
   ImsLe = TRUE
   ImsLocalTime = FALSE
   ImsNotAfterNow = TRUE
+  BigPositions = TRUE
   Tokens <- NoTokens
   MaxTokens = 0
   StartPaths <- CondFiles
